@@ -56,8 +56,8 @@ CHECKS.update({
              note=GNOTE, technique=GTECH, design='4/C12'),
  'C13': dict(category='model_checking', text='is_keyword / begin_keywords / end_keywords / current_version from MIR with the version stack (depth 0..3, top any of 9 selectors) and the word (index into the universe of all reserved words + probes) symbolic: is_keyword(w) <=> w in the reference set of the selector in force (IEEE 1800-2017 22.14, oracle/keywords/*.txt; 1800-2017 when the stack is empty); every specifier pushes its selector, unknown ones push nothing; the lookup may be a loop or slice::binary_search (std algorithm on the real, possibly unsorted table; the word is an index into the sorted universe so comparisons are index comparisons); the identifier lexers (Engine G, is_keyword symbolic) have no successful path under is_keyword and none that skips the lookup; the names of `define and of macro usages are lexed with the set of directive names on top of the version stack (scope in force recorded at every sub-parser call of text_macro_definition / text_macro_usage); bounded lexical queries for keyword(t) and the identifier lexers.',
              note=WNOTE + ' ' + GNOTE, technique='MIR symbolic execution of the keyword lookup over a symbolic word/stack + Engine G on the identifier lexers', design='4/C13'),
- 'C14': dict(category='model_checking', text='Mechanisms: strict entries end at the end of the text and the delimiter helpers succeed only after opener, inner, closer (Engine G); parse_sv_pp/parse_lib_pp map a parser failure at symbolic position p to Error::Parse(origin(p)) and preprocess_str maps a preprocessor-grammar failure at p to Preprocess((path being read, p)) (wrapper MIR, failure kind and position symbolic); concrete lexical faults in the top file and behind an include report an offset not after the fault.',
-             note=WNOTE + ' ' + GNOTE, technique='wrapper MIR with symbolic failure position + Engine G facts + concolic fault texts', design='4/C14'),
+ 'C14': dict(category='model_checking', text='Mechanisms: strict entries end at the end of the text and the delimiter helpers succeed only after opener, inner, closer (Engine G); garbage-first fixpoint over all productions: no production reachable from the SystemVerilog start symbols outside the compiler-directive grammar can succeed having consumed, at its entry offset, a byte outside printable ASCII / white space (inductive over the grammar, conditional on the nom contracts; tokens that start before the byte are outside); parse_sv_pp/parse_lib_pp map a parser failure at symbolic position p to Error::Parse(origin(p)) and preprocess_str maps a preprocessor-grammar failure at p to Preprocess((path being read, p)) (wrapper MIR, failure kind and position symbolic); concrete lexical faults in the top file and behind an include report an offset not after the fault.',
+             note=WNOTE + ' ' + GNOTE, technique='wrapper MIR with symbolic failure position + Engine G facts (per-production VCs and the garbage-first fixpoint, z3) + concolic fault texts', design='4/C14'),
  'C15': dict(category='model_checking', text='Mode switch: parse_X_pp selects the incomplete parser iff allow_incomplete and nothing else differs; never fails: no path of source_text_incomplete / library_text_incomplete returns Err, with `description`/`library_description` proved non-nullable and free of hard failures by the whole-grammar fixpoints; agreement: the incomplete bodies perform the same calls before the repetition and build the node from the same pieces as the strict ones.',
              note=WNOTE + ' ' + GNOTE, technique=GTECH + '; wrapper MIR with allow_incomplete symbolic', design='4/C15'),
  'C16': dict(category='model_checking', text='For every node type of the syntax tree (all 1243 RefNode variants) a bounded tree value is generated from the type tables; the presence of every top-level Option, the length (0..2) of every top-level Vec and the variant of a top-level enum are chosen by the solver (<=1 deviation from the fullest shape at once, 2 in thorough). The real iterators and conversions (derive Node::next / IntoIterator, From<&(T0..T10)>, Vec/Option/Box/Paren/List impls, Iter, EventIter, RefNode::next/into_iter, TryFrom<&T> for Locate, SyntaxTree::get_str/get_str_trim of a node and of its children tuple, Iter::event also on a partially advanced iterator, and the expansions of unwrap_node! (Symbol|Keyword in both orders, WhiteSpace|Locate, Locate) and unwrap_locate! instantiated by guarded hooks) run from MIR and are compared with an independent walk by declared field order: pre-order, balanced nested events, Enter sequence = plain iteration, first-to-last(-non-whitespace) token bounds, first node of the requested kinds in pre-order.',
